@@ -40,6 +40,7 @@ class Batch:
         self.requests = []
         self.impl = []
         self.meta = []
+        self.skipped_cost = 0
 
     def add(self, request, impl_answer, meta=None):
         self.requests.append(request)
@@ -52,7 +53,16 @@ class Batch:
         for req, a, b, m in zip(self.requests, self.impl, answers, self.meta):
             proj = (m or {}).get("project")
             if proj and "ok" in b:
-                b = {"ok": partition(b["ok"]) if proj == "partition" else sorted(b["ok"])}
+                if proj == "partition":
+                    b = {"ok": partition(b["ok"])}
+                elif proj == "sorted":
+                    b = {"ok": sorted(b["ok"])}
+                elif proj == "pipeline":
+                    b = {"ok": proj_pipeline(b["ok"])}
+                    parts = m.get("parts")
+                    if parts and "ok" in a:
+                        a = {"ok": {k: v for k, v in a["ok"].items() if k in parts}}
+                        b = {"ok": {k: v for k, v in b["ok"].items() if k in parts}}
             if a != b:
                 dis.append({"request": req, "impl": a, "model": b, "meta": m})
         return dis
@@ -142,4 +152,178 @@ def stage_resolve(batch, registry, kinds):
     ans = impl_call(lambda: sorted(c.__name__ for c in registry.resolve(*[conv.SER_CLASSES[k] for k in kinds])))
     batch.add({"op": "resolve", "reg": conv.reg_cfg(registry), "in": list(kinds)}, ans,
               {"kinds": kinds, "project": "sorted"})
+    return ans
+
+
+# ------------------------------------------------------------------------------------------ registry / layout
+import inflection  # noqa: E402
+
+from json_to_models.models.structure import compose_models, compose_models_flat  # noqa: E402
+from json_to_models.registry import (ModelCmp, ModelFieldsEquals, ModelFieldsNumberMatch,  # noqa: E402
+                                     ModelFieldsPercentMatch, ModelRegistry)
+
+
+class TableCmp(ModelCmp):
+    """symmetric table on the first key of each model (C05's table-driven comparator)"""
+
+    def __init__(self, edges):
+        self.edges = {tuple(e) for e in edges} | {tuple(reversed(e)) for e in edges}
+
+    def cmp(self, fields_a, fields_b):
+        raise NotImplementedError
+
+
+def enc_cmp(c):
+    if isinstance(c, TableCmp):
+        return ["table", sorted(list(e) for e in c.edges)]
+    if isinstance(c, ModelFieldsEquals):
+        return ["exact"]
+    if isinstance(c, ModelFieldsPercentMatch):
+        n, d = float(c.percent_fields).as_integer_ratio()
+        if n < 0:
+            n = 0
+        return ["percent", n, d]
+    if isinstance(c, ModelFieldsNumberMatch):
+        return ["number", max(0, int(c.number_fields))]
+    raise TypeError(c)
+
+
+class _TableRegistry(ModelRegistry):
+    """registry whose comparison sees the models' first keys in dict order (sets lose it)"""
+
+    def _models_cmp_fn(self, model_a, model_b):
+        if any(isinstance(c, TableCmp) for c in self._models_cmp):
+            ka = next(iter(model_a.type.keys()), "")
+            kb = next(iter(model_b.type.keys()), "")
+            for c in self._models_cmp:
+                if isinstance(c, TableCmp):
+                    if (ka, kb) in c.edges:
+                        return True
+                elif c.cmp(set(model_a.type.keys()), set(model_b.type.keys())):
+                    return True
+            return False
+        return super()._models_cmp_fn(model_a, model_b)
+
+
+def enc_graph(reg):
+    models = []
+    ptrs = []
+    for m in reg.models:
+        models.append([m.index, conv.enc_ty(m.type)[1], m.name, m.is_name_generated])
+        for p in m.pointers:
+            ptrs.append([p.type.index, p.parent.index if p.parent is not None else None, p.parent_field_name])
+    return {"models": models, "ptrs": sorted(ptrs, key=repr)}
+
+
+def proj_graph(g):
+    return {"models": g["models"], "ptrs": sorted(g["ptrs"], key=repr)}
+
+
+def enc_struct(nodes):
+    return [[n["model"].index, enc_struct(n["nested"])] for n in nodes]
+
+
+def name_oracles(keys):
+    su = {}
+    cam = {}
+    for k in keys:
+        w = inflection.singularize(inflection.underscore(k))
+        su[k] = w
+        cam[w] = inflection.camelize(w)
+    return {"singUnder": [[k, v] for k, v in su.items()], "camelize": [[k, v] for k, v in cam.items()]}
+
+
+def run_pipeline_impl(inputs, registry, cmps, dict_fields=(), dict_regex=()):
+    """the library pipeline up to the layouts; returns the projections compared with the model"""
+    gen = MetadataGenerator(registry, dict_keys_regex=list(dict_regex), dict_keys_fields=list(dict_fields))
+    reg = _TableRegistry(*cmps)
+    out = {}
+    for name, samples in inputs:
+        meta = gen.generate(*copy.deepcopy(samples))
+        reg.process_meta_data(meta, name)
+    out["process"] = enc_graph(reg)
+    out["cost"] = closure_cost(reg)
+    repl = reg.merge_models(gen)
+    out["merge"] = enc_graph(reg)
+    out["replaces"] = [[m.index, sorted(x.index for x in grp)] for m, grp in repl]
+    reg.generate_names()
+    out["named"] = enc_graph(reg)
+    try:
+        out["flat"] = [n["model"].index for n in compose_models_flat(reg.models_map)[0]]
+    except Exception as e:  # noqa
+        out["flat"] = {"err": "NoPointers" if "has no pointers" in str(e) else err_class(e)}
+    try:
+        roots, inj = compose_models(reg.models_map)
+        out["nested"] = [enc_struct(roots), sorted([a.index, b.index] for a, b in inj.items())]
+    except Exception as e:  # noqa
+        out["nested"] = {"err": "NoPointers" if "has no pointers" in str(e) else err_class(e)}
+    return out, reg, gen
+
+
+def proj_pipeline(r):
+    """canonical projection of a model answer (same shape as run_pipeline_impl's)"""
+    out = {}
+    for k in ("process", "merge", "named"):
+        out[k] = proj_graph(r[k])
+    out["replaces"] = [[i, sorted(ms)] for i, ms in r["replaces"]]
+    out["flat"] = r["flat"]
+    n = r["nested"]
+    out["nested"] = n if isinstance(n, dict) else [n[0], sorted(n[1])]
+    return out
+
+
+def closure_cost(reg, limit=80):
+    """max number of groups the grouping loop holds for this registry (early exit above `limit`):
+    the model executes the same loop on lists and is only asked when this is small"""
+    from collections import defaultdict
+    from itertools import combinations
+    m2m = defaultdict(set)
+    for a, b in combinations(list(reg.models), 2):
+        if reg._models_cmp_fn(a, b):
+            m2m[a.index].add(b.index)
+            m2m[b.index].add(a.index)
+    groups = [frozenset({m, *ms}) for m, ms in m2m.items()]
+    worst = len(groups)
+    flag = True
+    while flag:
+        flag = False
+        ng = {}
+        for i, g1 in enumerate(groups):
+            ins = False
+            for j, g2 in enumerate(groups):
+                if i != j and g1 & g2:
+                    ins = True
+                    u = g1 | g2
+                    if u not in ng:
+                        ng[u] = 1
+                        flag = True
+                        if len(ng) > limit:
+                            return len(ng)
+            if not ins:
+                ng.setdefault(g1, 1)
+        worst = max(worst, len(ng))
+        if flag:
+            groups = list(ng)
+    return worst
+
+
+def stage_pipeline(batch, inputs, registry, cmps, dict_fields=(), dict_regex=(), parts=None):
+    values, keys = set(), set()
+    for _, samples in inputs:
+        for s in samples:
+            conv.walk_strings(s, values, keys)
+    cfg = conv.gen_cfg(registry, dict_fields, dict_regex)
+    orc = conv.oracles(registry, values, keys, dict_regex)
+    orc.update(name_oracles(keys))
+
+    def run():
+        return run_pipeline_impl(inputs, registry, cmps, dict_fields, dict_regex)[0]
+
+    ans = impl_call(run)
+    if "ok" in ans and ans["ok"].pop("cost") > 80:
+        batch.skipped_cost += 1
+        return ans
+    req = {"op": "pipeline", "cfg": cfg, "orc": orc, "cmps": [enc_cmp(c) for c in cmps],
+           "in": [[n, [conv.enc_json(s) for s in ss]] for n, ss in inputs]}
+    batch.add(req, ans, {"inputs": inputs, "project": "pipeline", "parts": parts})
     return ans
